@@ -180,21 +180,33 @@ function genSemStrict(rng, params) {
   const open = () => [A("string"), rng.pick([A("unknown"), A("unknown"), A("string"), [A("union"), A("string"), A("number")]])];
   const mk = (v) => { const ms = [[key, A("false"), tag(v)], ...(rng.chance(2, 3) ? [["id", A("false"), A("string")]] : []), ...(rng.chance(1, 3) ? [["n", A("true"), A("string")]] : [])]; return [A("obj"), ms, rng.chance(1, 2) ? open() : A("none")]; };
   const tags = ["a", "b", "c"].slice(0, 2 + rng.below(2));
-  const ms = tags.map(mk);
+  let ms = tags.map(mk);
+  // members that are intersections of object types (`Base & { kind: "a"; … }`): what survives the difference is still an
+  // intersection, and strict mode counts the keys of ALL its members
+  const interMembers = rng.chance(1, 3);
+  let decls = [];
+  if (interMembers) {
+    const base = [A("obj"), [["base", A("false"), A("string")], ...(rng.chance(1, 2) ? [["opt", A("true"), A("number")]] : [])], A("none")];
+    // (the common member by name, half of the time: a reference survives the semantic engine as a reference)
+    const named = rng.chance(1, 2);
+    if (named) decls = [[A("alias"), "Base", [], base]];
+    ms = ms.map((m) => { const x = [A("inter"), named ? [A("ref"), "Base"] : base, [A("obj"), m[1], A("none")]]; x.baseShape = base; return x; });
+  }
   const a = [A("union"), ...ms];
-  const b = rng.pick([[A("obj"), [[key, A("false"), tag(tags[tags.length - 1])]], A("none")], ms[ms.length - 1], [A("obj"), [[key, A("false"), tag("zz")]], A("none")]]);
+  const b = rng.pick([[A("obj"), [[key, A("false"), tag(tags[tags.length - 1])]], A("none")], ...(interMembers ? [] : [ms[ms.length - 1]]), [A("obj"), [[key, A("false"), tag("zz")]], A("none")]]);
   const expr = [A("exclude"), a, b];
   const vals = [];
   for (let i = 0; i < Number(params[0] || 10); i++) {
-    const m = rng.pick(ms); const o = {};
+    const m0 = rng.pick(ms); const o = {};
     const put = (k, x) => Object.defineProperty(o, k, { value: x, enumerable: true, configurable: true, writable: true });
-    for (const [k, , t] of m[1]) { if (k === "n" && rng.chance(1, 2)) continue; put(k, k === key ? t[1][1] : "s" + i); }
+    const m = interMembers ? [A("obj"), [...m0.baseShape[1], ...m0[2][1]], A("none")] : m0;
+    for (const [k, , t] of m[1]) { if ((k === "n" || k === "opt") && rng.chance(1, 2)) continue; put(k, k === key ? t[1][1] : k === "opt" ? i : "s" + i); }
     if (rng.chance(2, 3)) put(rng.pick(["color", "extra", "zz"]), rng.pick(["red", 7, "x"]));
     if (rng.chance(1, 6)) put("id", 5);
     vals.push(o);
   }
-  const src = `parse.buildParsers<{ R: Exclude<${tsOf(a)}, ${tsOf(b)}> }>();\n`;
-  return [A("semstrict"), A(String(counter++)), [A("prog"), [], [["R", expr]]], [["entry.ts", src]], vals.map(encVal)];
+  const src = decls.map(tsOfDecl).join("\n") + `\nparse.buildParsers<{ R: Exclude<${tsOf(a)}, ${tsOf(b)}> }>();\n`;
+  return [A("semstrict"), A(String(counter++)), [A("prog"), decls, [["R", expr]]], [["entry.ts", src]], vals.map(encVal)];
 }
 let counter = 0;
 export function gen(rng, params, mode) {
